@@ -3,6 +3,7 @@ package checks
 import (
 	"errors"
 	"fmt"
+	"math"
 	"testing"
 
 	"pgregory.net/rapid"
@@ -451,7 +452,9 @@ func checkC12Float(c *c12FloatCase) (msg string, nontrivial bool) {
 	// equal values must have been written under one key
 	for i := range vals {
 		for j := range vals {
-			if vals[i] == vals[j] && written[i] != written[j] {
+			// (the same value: +0 and -0 compare equal but are written as
+			// "0.000000" and "-0.000000", which nothing forbids)
+			if math.Float64bits(vals[i]) == math.Float64bits(vals[j]) && written[i] != written[j] {
 				return fmt.Sprintf("%q wrote the values %v and %v under the keys %q and %q", pq, vals[i], vals[j], written[i], written[j]), true
 			}
 		}
